@@ -43,6 +43,7 @@ impl Rng {
 }
 
 pub struct Opts {
+	pub engine: String,
 	pub tier: String,
 	pub seed: u64,
 	pub out: PathBuf,
